@@ -50,10 +50,9 @@ def update(self, sample):
     self._timestamp_newest = HOLE_newest
     self._timestamp_oldest = HOLE_oldest
     if self.has_value(sample):
-        value = sample.value.base_value
+        self._buffer[self.to_internal_index(self.normalize_timestamp(sample.timestamp))] = sample.value.base_value
     else:
-        value = np.nan
-    self._buffer[self.to_internal_index(self.normalize_timestamp(sample.timestamp))] = value
+        self._buffer[self.to_internal_index(self.normalize_timestamp(sample.timestamp))] = np.nan
     self._update_gaps(self.normalize_timestamp(sample.timestamp), prev_newest, not self.has_value(sample))
 """
 
